@@ -17,8 +17,12 @@ GenInitList == [i \in 1..Cardinality(Keys) |-> i]
 GenFam == [s \in Senders |-> IF s \in {4, 5, 13} THEN "v6" ELSE IF s = 9 THEN "zoned" ELSE "v4"]
 D(c, k, hdr, dst, cls) == [c |-> c, k |-> k, hdr |-> hdr, dst |-> dst, cls |-> cls]
 R(s, cls) == [s |-> s, cls |-> cls]
+\* 14 = a loopback address with port 0, 15 = the public address with port 0: allowed by the validator, but the outbound
+\* socket's WriteTo fails (EINVAL) - the association must be left as it is
+GenDgFail(t) == {D(c, k, TRUE, t, cls) : c \in Clients, k \in Keys, cls \in {"0", "1", "1000", "max"}}
 \* real-socket driver: all clients, all keys and no key, every size class, allowed v4/v6/DNS and forbidden destinations
 GenDgReal == {D(c, k, TRUE, dst, cls) : c \in Clients, k \in Keys \cup {0}, dst \in {1, 2, 4, 10}, cls \in {"0", "1", "1000", "max"}}
+               \cup GenDgFail(14)
                \cup {D(c, k, FALSE, 1, cls) : c \in Clients, k \in Keys, cls \in {"0", "1", "1000"}}
                \cup {D(c, k, TRUE, 3, cls) : c \in Clients, k \in Keys, cls \in {"0", "1", "1000"}}
 GenRpReal == {R(s, cls) : s \in {1, 2, 4, 6, 7, 8, 10}, cls \in {"0", "1", "1000"}}
@@ -28,11 +32,16 @@ GenRpReal == {R(s, cls) : s \in {1, 2, 4, 6, 7, 8, 10}, cls \in {"0", "1", "1000
 \* 13 = a name resolving to the ULA address fd00::2 (forbidden); the loopback literals 1, 2, 4 and the ULA literal 3 are
 \* forbidden here, only 10 and 12 are allowed
 GenDgDef == {D(c, k, TRUE, dst, cls) : c \in Clients, k \in Keys \cup {0}, dst \in {10, 12}, cls \in {"0", "1", "1000", "max"}}
+              \cup GenDgFail(15)
               \cup {D(c, k, TRUE, dst, cls) : c \in Clients, k \in Keys, dst \in {1, 3, 4, 11, 13}, cls \in {"0", "1"}}
               \cup {D(c, k, FALSE, 10, "1") : c \in Clients, k \in Keys}
 GenRpDef == {R(s, cls) : s \in {10, 6, 7, 8}, cls \in {"0", "1", "1000"}} \cup {R(10, "fit"), R(10, "big")}
 \* virtual-time natmap harness: only forwarded datagrams matter (the harness plays the Handle loop)
-GenDgVirt == {D(c, 1, TRUE, dst, "1") : c \in Clients, dst \in {1, 2}}
+\* (3 = a destination to which the fake outbound conn's WriteTo fails)
+GenDgVirt == {D(c, 1, TRUE, dst, "1") : c \in Clients, dst \in {1, 2, 3}}
+\* datagrams delivered to the association's socket while the harness (playing Handle) is INSIDE natconn.WriteTo: a gate in the
+\* fake conn's SetReadDeadline
+GenMidVirt == {R(2, "1"), R(8, "1"), R(1, "1")}
 GenRpVirt == {R(s, "1") : s \in {1, 2, 7, 8}}
 
 GenInit == Init /\ done = FALSE /\ kind = 0
@@ -52,7 +61,9 @@ PickKind == /\ ~done /\ kind = 0 /\ Quiet /\ NEnv < GenLen /\ h.pc # "returned"
             /\ UNCHANGED <<vars, done>>
 EnvStep == /\ ~done /\ kind # 0 /\ kind' = 0 /\ UNCHANGED done
            /\ CASE KindOf(kind) = "C" -> EnvC [] KindOf(kind) = "S" -> EnvS [] KindOf(kind) = "T" -> EnvT [] OTHER -> CloseListener
-Internal == /\ ~done /\ ~Quiet /\ (HandleStep \/ \E a \in 1..MaxAssoc : AssocStep(a)) /\ UNCHANGED <<done, kind>>
+Internal == /\ ~done /\ ~Quiet /\ UNCHANGED <<done, kind>>
+            /\ \/ HandleStep \/ \E a \in 1..MaxAssoc : AssocStep(a)
+               \/ \E x \in MidAlpha, a \in 1..MaxAssoc : SenderSendMid(x.s, a, x.cls)
 Finish == ~done /\ kind = 0 /\ Quiet /\ (NEnv >= GenLen \/ h.pc = "returned") /\ done' = TRUE /\ UNCHANGED <<vars, kind>>
 GenNext == PickKind \/ EnvStep \/ Internal \/ Finish
 GenSpec == GenInit /\ [][GenNext]_<<vars, done, kind>>
